@@ -32,7 +32,8 @@ Definition inmem_violations (fs : list lock_fact) : list string :=
    ++ filter (fun n => negb (existsb (fun f => String.eqb (lf_name f) n) fs)) (inmem_mutators ++ inmem_readers))%list.
 
 (* ---------- ent repository: one guarded UPDATE per transition ---------- *)
-Inductive ent_event := EvGuard (st : string) | EvSet (st : string) | EvExec | EvRead.
+Inductive ent_event := EvGuard (st : string) | EvSet (st : string) | EvExec | EvRead
+                     | EvClear (stamp : string) | EvStamp (stamp : string).   (* ClearXAt() / SetXAt(...) *)
 Record ent_fact := mkEF { ef_name : string; ef_events : list ent_event }.   (* events in source order *)
 Definition state_of_string (x : string) : state :=
   if String.eqb x "Scheduled" then Scheduled else if String.eqb x "Dispatched" then Dispatched
@@ -73,3 +74,37 @@ Definition ent_discipline_ok (fs : list ent_fact) : bool :=
 Definition ent_violations (fs : list ent_fact) : list string :=
   (map ef_name (filter (fun f => negb (ent_ok f)) fs)
    ++ filter (fun n => negb (existsb (fun f => String.eqb (ef_name f) n) fs)) ent_methods)%list.
+
+(* ---------- ent repository: the recovery operations (C13) ----------
+   RevertDispatched / CancelDispatched are one UPDATE each over precisely the dispatched rows; the first also clears
+   dispatched_at (F2), the second stamps cancelled_at. The table is the specification's: [undispatch] and
+   [cancel_if_dispatched] (Repo.v) touch a task iff it is Dispatched (Props/C13.v: C13_revert_untouched,
+   C13_revert_dispatched, C13_cancel_dispatched_untouched). *)
+Definition rec_edge (m : string) : option (state * state * list ent_event) :=
+  if String.eqb m "RevertDispatched" then Some (Dispatched, Scheduled, [EvClear "DispatchedAt"])
+  else if String.eqb m "CancelDispatched" then Some (Dispatched, Cancelled, [EvStamp "CancelledAt"])
+  else None.
+Definition ev_eqb (a b : ent_event) : bool :=
+  match a, b with
+  | EvGuard x, EvGuard y | EvSet x, EvSet y | EvClear x, EvClear y | EvStamp x, EvStamp y => String.eqb x y
+  | EvExec, EvExec | EvRead, EvRead => true
+  | _, _ => false
+  end.
+Definition rec_ok (f : ent_fact) : bool :=
+  match rec_edge (ef_name f), prefix_to_exec (ef_events f) with
+  | Some (g, y, req), Some pre =>
+    negb (existsb (fun e => match e with EvRead => true | _ => false end) (ef_events f))
+    && match guards_of (ef_events f) with [g'] => state_eqb g g' | _ => false end
+    && match guards_of pre with [_] => true | _ => false end
+    && match sets_of (ef_events f) with [y'] => state_eqb y y' | _ => false end
+    && match sets_of pre with [_] => true | _ => false end
+    && forallb (fun r => existsb (ev_eqb r) pre) req
+    && Nat.eqb (List.length (filter (fun e => match e with EvExec => true | _ => false end) (ef_events f))) 1
+  | _, _ => false
+  end.
+Definition rec_methods : list string := ["RevertDispatched"; "CancelDispatched"].
+Definition rec_discipline_ok (fs : list ent_fact) : bool :=
+  forallb rec_ok fs && forallb (fun n => existsb (fun f => String.eqb (ef_name f) n) fs) rec_methods.
+Definition rec_violations (fs : list ent_fact) : list string :=
+  (map ef_name (filter (fun f => negb (rec_ok f)) fs)
+   ++ filter (fun n => negb (existsb (fun f => String.eqb (ef_name f) n) fs)) rec_methods)%list.
